@@ -127,6 +127,26 @@ fn decode_inner(buf: &mut BytesMut) -> Result<Option<(RequestId, (Tag, Vec<Contr
     Ok(Some((msgid, (Tag::StructureTag(protoop), controls))))
 }
 
+/// Direct entry point to the frame decoder for the verification harness.
+#[cfg(ldap3_verif)]
+#[allow(clippy::type_complexity)]
+pub fn verif_decode(
+    buf: &mut BytesMut,
+) -> Result<Option<(RequestId, (Tag, Vec<Control>))>, io::Error> {
+    decode_inner(buf)
+}
+
+/// Direct entry point to the message encoder for the verification harness.
+#[cfg(all(ldap3_verif, not(feature = "gssapi")))]
+pub fn verif_encode(
+    id: RequestId,
+    tag: Tag,
+    controls: MaybeControls,
+    into: &mut BytesMut,
+) -> io::Result<()> {
+    LdapCodec {}.encode((id, tag, controls), into)
+}
+
 impl Decoder for LdapCodec {
     type Item = (RequestId, (Tag, Vec<Control>));
     type Error = io::Error;
